@@ -211,7 +211,7 @@ Verdict prop(Tape& t, Run& run) {
 		}
 	}
 	else {
-		c = decodeFileCase(t, run);
+		c = decodeFileCase(t, run, true, true);
 		if (!c.ok) {
 			run.exclude(c.why);
 			return OK;
@@ -337,6 +337,11 @@ void deterministic(Run& run, const std::function<void(const std::vector<uint8_t>
 	for (size_t i = 0; i < n; i++)
 		for (uint8_t mode = 0; mode < 2; mode++)
 			feed({0, 1, static_cast<uint8_t>(i), mode, 0, 0});
+	// samples with one / all block types unregistered (opaque blocks), both modes
+	for (size_t i = 0; i < n; i++)
+		for (uint8_t which : {0, 3, 0xFF})
+			for (uint8_t mode = 0; mode < 2; mode++)
+				feed({0, 0xD0, 1, static_cast<uint8_t>(i), which, mode, 0, 0});
 	// every type x version x patterns; mode alternates with the pattern byte
 	auto& types = registeredTypes();
 	static const uint8_t patterns[] = {0xA1, 0xC8, 0x00, 0x95, 0xE1, 0xFE};
